@@ -1360,25 +1360,30 @@ def run_deep(case):
     klass = {"d1": BP.D1BP, "hd1": BP.HD1BP, "hv1": BP.HV1BP, "l1": BP.L1BP, "d2": BP.D2BP, "l2": BP.L2BP}[flavour]
     site_tags = [f"I{i}" for _, _, i in ts]
 
+    # the default message tolerance 5e-6 is only used with structured matrices: there a message is a (scaled) permuted copy,
+    # its change is O(1) until the front arrives and exactly 0 afterwards, so a true stop is exact; with generic matrices
+    # the messages converge geometrically along the chain and a legitimate stop at 5e-6 leaves an undefined value error
+    run_tol = BP_TOL if case["mid"] == "generic" else case["tol"]
+
     def value(**runkw):
         tn = Q.TensorNetwork([Q.Tensor(a.copy(), inds=ii, tags=[f"I{i}"]) for a, ii, i in ts])
         b = klass(tn, site_tags=site_tags, update=case["update"]) if flavour in ("l1", "l2") else klass(tn, update=case["update"])
         info = {}
-        b.run(max_iterations=MAXIT, tol=case["tol"], info=info, **runkw)
+        b.run(max_iterations=MAXIT, tol=run_tol, info=info, **runkw)
         return complex(b.contract()), info
 
     got, info = value()
-    tol = TOL if case["tol"] == BP_TOL else 1e-3   # the default message tolerance 5e-6 only promises a few digits
+    tol = TOL
     err = rel_scalar(got, ref)
     if not err <= tol:
         # classify: is it the rolling-mean stop rule (tol_rolling_diff = tol by default; 0 switches it off)?
         got2, info2 = value(tol_rolling_diff=0.0)
-        if rel_scalar(got2, ref) <= tol and info.get("converged") and info.get("max_mdiff", 0) > case["tol"]:
+        if rel_scalar(got2, ref) <= tol and info.get("converged") and info.get("max_mdiff", 0) > run_tol:
             raise Violation("rolling-diff-false-convergence", flavour=flavour, update=case["update"])
         raise Violation("value", flavour=flavour, err=err, update=case["update"], converged=bool(info.get("converged")),
                         iterations=info.get("iterations"))
     cls = ["flavour=" + flavour, "mid=" + case["mid"], "update=" + case["update"], "L>=18" if case["L"] >= 18 else "L<18",
-           "tol=default" if case["tol"] != BP_TOL else "tol=1e-12"]
+           "tol=default" if run_tol != BP_TOL else "tol=1e-12"]
     return {"nt": case["L"] >= 18 and case["mid"] != "generic", "cls": cls, "err": err}
 
 
@@ -1573,7 +1578,7 @@ SUBCHECKS = [
     SubCheck("deep_chain.schedule", run_deep, s_deep, examples=(150, 1500), shards=(1, 4),
              rule="chains of 2-44 structured matrices (identity, permutation, scaled permutation; generic as control) between two "
                   "random vectors, 6 flavours (class API), parallel / sequential, tol 1e-12 or the default 5e-6, storage order "
-                  "forward / reversed: contract() == exact chain product (1e-6, 1e-3 at the default tol); nt: L>=18, structured"),
+                  "forward / reversed: contract() == exact chain product to 1e-6 (generic matrices always at tol 1e-12); nt: L>=18, structured"),
     SubCheck("d2bp.gate", run_gate, s_gate, examples=(120, 1500), shards=(1, 4),
              rule="1-3 single-site / bonded two-site gates (unitary or well conditioned generic) applied with D2BP.gate_ (no truncation), "
                   "optionally re-running in between: bp.tn == gated dense vector, contract() == its norm squared, partial_trace of the "
